@@ -257,3 +257,26 @@ Definition c_local_extrema (sq : Q -> Q) (p0 p1 p2 p3 : Q) : list Q :=
       let e2 := (- b + s) / (2 * a) in
       let '(e1, e2) := if Qltb e2 e1 then (e2, e1) else (e1, e2) in
       (if in_range e1 then [e1] else []) ++ (if in_range e2 then [e2] else []).
+
+(* CubicBezierSegment::{x,y}_{minimum,maximum}_t and bounding_range_{x,y} on one coordinate *)
+Definition c_maximum_t (sq : Q -> Q) (p0 p1 p2 p3 : Q) : Q :=
+  let init := if Qltb p0 p3 then (1, p3) else (0, p0) in
+  fst (fold_left (fun (acc : Q * Q) t =>
+                    let v := c_coord p0 p1 p2 p3 t in
+                    if Qltb (snd acc) v then (t, v) else acc)
+                 (c_local_extrema sq p0 p1 p2 p3) init).
+Definition c_minimum_t (sq : Q -> Q) (p0 p1 p2 p3 : Q) : Q :=
+  let init := if Qltb p3 p0 then (1, p3) else (0, p0) in
+  fst (fold_left (fun (acc : Q * Q) t =>
+                    let v := c_coord p0 p1 p2 p3 t in
+                    if Qltb v (snd acc) then (t, v) else acc)
+                 (c_local_extrema sq p0 p1 p2 p3) init).
+Definition c_bounding_range (sq : Q -> Q) (p0 p1 p2 p3 : Q) : Q * Q :=
+  (c_coord p0 p1 p2 p3 (c_minimum_t sq p0 p1 p2 p3), c_coord p0 p1 p2 p3 (c_maximum_t sq p0 p1 p2 p3)).
+Definition c_fast_bounding_range (p0 p1 p2 p3 : Q) : Q * Q :=
+  (Qmin (Qmin (Qmin p0 p1) p2) p3, Qmax (Qmax (Qmax p0 p1) p2) p3).
+
+(* derivative of one coordinate, as the polynomial whose roots for_each_local_extremum solves *)
+Definition c_dpoly (p0 p1 p2 p3 t : Q) : Q :=
+  3 * (p3 + 3 * (p1 - p2) - p0) * t * t + 6 * (p2 - 2 * p1 + p0) * t + 3 * (p1 - p0).
+Definition q_dcoord (f c0 t_ t : Q) : Q := f * (2 * t - 2) + c0 * (- (4) * t + 2) + t_ * (2 * t).
